@@ -13,6 +13,7 @@ import sys
 import threading
 import time as _time
 import types
+import weakref
 
 from . import vloop as _vloop
 
@@ -334,7 +335,7 @@ class Sched:
             t.sched = None
         self.threads = []
         self.trace = []
-        for k in ('loops', 'keep', 'pool_threads'):
+        for k in ('loops', 'keep', 'pool_threads', 'executors'):
             if hasattr(self, k):
                 setattr(self, k, None)
 
@@ -397,6 +398,187 @@ class TxLock:
         self.release()
 
 
+class TxRLock:
+    """threading.RLock stand-in."""
+
+    def __init__(self, sched):
+        self.sched = sched
+        self.owner = None
+        self.depth = 0
+
+    def acquire(self, blocking=True, timeout=-1):
+        s = self.sched
+        me = s.current_id()
+        s.point('rlock.acquire')
+        if self.owner == me:
+            self.depth += 1
+            return True
+        if self.owner is not None:
+            if not blocking:
+                return False
+            if not s.wait_until(lambda: self.owner is None, None if timeout in (-1, None) else timeout, 'rlock'):
+                return False
+        self.owner, self.depth = me, 1
+        return True
+
+    def release(self):
+        if self.owner != self.sched.current_id():
+            raise RuntimeError('cannot release un-acquired lock')
+        self.depth -= 1
+        if not self.depth:
+            self.owner = None
+            self.sched.point('rlock.release')
+
+    def __enter__(self):
+        self.acquire()
+        return True
+
+    def __exit__(self, *a):
+        self.release()
+
+
+class TxEvent:
+    """threading.Event stand-in."""
+
+    def __init__(self, sched):
+        self.sched = sched
+        self.flag = False
+
+    def is_set(self):
+        return self.flag
+
+    def set(self):
+        self.flag = True
+        self.sched.point('event.set')
+
+    def clear(self):
+        self.flag = False
+
+    def wait(self, timeout=None):
+        s = self.sched
+        s.point('event.wait')
+        if self.flag:
+            return True
+        return bool(s.wait_until(lambda: self.flag, timeout, 'event.wait'))
+
+
+class TxSemaphore:
+    """threading.Semaphore / BoundedSemaphore stand-in."""
+
+    def __init__(self, sched, value=1):
+        self.sched = sched
+        self.value = value
+
+    def acquire(self, blocking=True, timeout=None):
+        s = self.sched
+        s.point('sem.acquire')
+        if self.value <= 0:
+            if not blocking:
+                return False
+            if not s.wait_until(lambda: self.value > 0, timeout, 'sem'):
+                return False
+        self.value -= 1
+        return True
+
+    def release(self, n=1):
+        self.value += n
+        self.sched.point('sem.release')
+
+    def __enter__(self):
+        self.acquire()
+        return True
+
+    def __exit__(self, *a):
+        self.release()
+
+
+class TxCondition:
+    """threading.Condition stand-in (notify wakes by generation counter)."""
+
+    def __init__(self, sched, lock=None):
+        self.sched = sched
+        self.lock = lock if lock is not None else TxRLock(sched)
+        self.acquire, self.release = self.lock.acquire, self.lock.release
+        self.gen = 0
+        self.waiters = []
+
+    def __enter__(self):
+        return self.lock.__enter__()
+
+    def __exit__(self, *a):
+        return self.lock.__exit__(*a)
+
+    def wait(self, timeout=None):
+        s = self.sched
+        tok = [False]
+        self.waiters.append(tok)
+        depth = getattr(self.lock, 'depth', 1)
+        for _ in range(depth):
+            self.lock.release()
+        ok = bool(s.wait_until(lambda: tok[0], timeout, 'cond.wait'))
+        if tok in self.waiters:
+            self.waiters.remove(tok)
+        for _ in range(depth):
+            self.lock.acquire()
+        return ok
+
+    def wait_for(self, predicate, timeout=None):
+        r = predicate()
+        while not r:
+            if not self.wait(timeout):
+                return predicate()
+            r = predicate()
+        return r
+
+    def notify(self, n=1):
+        for tok in self.waiters[:n]:
+            tok[0] = True
+        del self.waiters[:n]
+        self.sched.point('cond.notify')
+
+    def notify_all(self):
+        self.notify(len(self.waiters))
+
+
+class TxThread:
+    """threading.Thread stand-in: a scheduler-owned thread."""
+
+    def __init__(self, sched, group=None, target=None, name=None, args=(), kwargs=None, daemon=None):
+        self.sched, self.target, self.args, self.kwargs = sched, target, args, kwargs or {}
+        self.name, self.daemon, self.ts = name or 'thread', daemon, None
+
+    def run(self):
+        if self.target:
+            self.target(*self.args, **self.kwargs)
+
+    def start(self):
+        s = self.sched
+        self.ts = s.spawn(self.run, name=f'{self.name}{len(s.threads)}')
+        self.ts.parent = s.current_id()
+        s.pool_threads.append(self.ts)
+        s.point('thread.start')
+
+    def is_alive(self):
+        return self.ts is not None and self.ts.status != 'done'
+
+    def join(self, timeout=None):
+        if self.ts is not None and self.ts.status != 'done':
+            self.sched.wait_until(lambda: self.ts.status == 'done', timeout, 'thread.join')
+
+
+def threading_shims(sched):
+    """name -> stand-in factory for everything of the threading module a tree may start using."""
+    return {
+        'Lock': lambda: TxLock(sched),
+        'RLock': lambda: TxRLock(sched),
+        'Event': lambda: TxEvent(sched),
+        'Semaphore': lambda value=1: TxSemaphore(sched, value),
+        'BoundedSemaphore': lambda value=1: TxSemaphore(sched, value),
+        'Condition': lambda lock=None: TxCondition(sched, lock),
+        'Thread': lambda *a, **k: TxThread(sched, *a, **k),
+    }
+
+
 class VFuture(concurrent.futures.Future):
     def __init__(self, sched):
         super().__init__()
@@ -423,6 +605,11 @@ class VExecutor:
         self.sched = sched or CURRENT['sched']
         self.workers = []
         self.closed = False
+        # a real pool's worker threads stay parked (alive) until shutdown() or until the executor object
+        # is garbage; observers ask idle_workers() for executors that are still reachable and not shut down
+        reg = getattr(self.sched, 'executors', None)
+        if reg is not None:
+            reg.append(weakref.ref(self))
 
     def submit(self, fn, *a, **k):
         s = self.sched
@@ -459,6 +646,18 @@ class VExecutor:
         return False
 
 
+def idle_workers(sched, exclude=()):
+    """Names of parked worker threads: one per executor that ran something, was never shut down and is
+    still referenced (refcount-reachable; gc is disabled during executions)."""
+    out = []
+    for r in sched.executors or ():
+        ex = r()
+        if ex is None or ex.closed or not ex.workers or ex in exclude:
+            continue
+        out.append(f'parked-worker-of-unshut-executor({ex.workers[0].name})')
+    return out
+
+
 class VQueue:
     """queue.Queue stand-in (unbounded)."""
 
@@ -491,6 +690,8 @@ class VQueue:
 CURRENT = {'sched': None}
 EXTRA_LOCKS = []
 EXTRA_SETS = []
+EXTRA_PRIMS = {}
+EXTRA_THREADING_MODS = []
 
 
 def bind_asyncio_seams(aiu, sched):
@@ -498,6 +699,7 @@ def bind_asyncio_seams(aiu, sched):
     import queue as real_queue
     CURRENT['sched'] = sched
     sched.pool_threads = []
+    sched.executors = []
     aiu.Lock = lambda: TxLock(sched)
     aiu.ThreadPoolExecutor = VExecutor
     aiu.queue = types.SimpleNamespace(Queue=VQueue, Empty=real_queue.Empty)
@@ -511,6 +713,15 @@ def bind_asyncio_seams(aiu, sched):
     for name in EXTRA_SETS:
         if hasattr(aiu, name):
             setattr(aiu, name, set())
+    shims = threading_shims(sched)
+    for name, kind in EXTRA_PRIMS.items():      # e.g. `from threading import Event` in the tree under test
+        setattr(aiu, name, shims[kind])
+    for name in EXTRA_THREADING_MODS:           # `import threading` in the tree under test
+        import threading as _th
+        ns = types.SimpleNamespace(**{k: getattr(_th, k) for k in dir(_th) if not k.startswith('__')})
+        for kind, f in shims.items():
+            setattr(ns, kind, f)
+        setattr(aiu, name, ns)
     _vloop.set_world(sched)
 
 
@@ -526,8 +737,14 @@ def save_asyncio_seams(aiu):
                 EXTRA_LOCKS.append(k)
             elif isinstance(v, set) and k.startswith('_'):
                 EXTRA_SETS.append(k)
+            elif v is threading:
+                EXTRA_THREADING_MODS.append(k)
+            elif k != 'Lock':
+                for kind in ('RLock', 'Event', 'Semaphore', 'BoundedSemaphore', 'Condition', 'Thread'):
+                    if v is getattr(threading, kind):
+                        EXTRA_PRIMS[k] = kind
         for k in ['Lock', 'ThreadPoolExecutor', 'queue', 'sleep', '_CROSS_LOOP_POOL', '_LOOP_LOCKS',
-                  '_LOOP_LOCKS_CREATE_LOCK'] + EXTRA_LOCKS + EXTRA_SETS:
+                  '_LOOP_LOCKS_CREATE_LOCK'] + EXTRA_LOCKS + EXTRA_SETS + list(EXTRA_PRIMS) + EXTRA_THREADING_MODS:
             _ORIG[k] = getattr(aiu, k)
 
 
